@@ -11,6 +11,9 @@ from .common import *
 from .C11 import reach_v, must_pass_v, EnumProbes, single_def, const_operand, plain_source
 
 VIEW = 'norm'
+# the conversions build `f + b*s` / `f + s` with the Add kernels of the polynomial algebra; a kernel that loses
+# a term changes the feasible set of the new equality (seed C13-9), so those kernels are re-decided here
+RELIES_ON = {'C02': ['C02.kernel']}
 INST = 'v1::Instance'; DV = 'v1::DecisionVariable'; CON = 'v1::Constraint'
 ALLOWED_KINDS = {'Binary', 'Integer'}
 
